@@ -48,7 +48,12 @@ func pool(seed int) []*cell.Cell {
 	pr, _ := cell.NewPruned(leaf, 1)
 	withPruned := cell.MustNew([]byte{0x11, 0x22}, 16, []*cell.Cell{pr, leaf}, false)
 	pr2, _ := cell.NewPruned(cell.MustNew([]byte{0x77}, 8, []*cell.Cell{pr}, false), 2)
-	return append(p, withPruned, cell.MustNew([]byte{0x33}, 8, []*cell.Cell{pr2}, false))
+	// bodies without data bits: empty, and references only (a body is "any body cell": its references are part of it
+	// even when there is nothing to read before them)
+	empty := cell.MustNew(nil, 0, nil, false)
+	refsOnly := cell.MustNew(nil, 0, []*cell.Cell{leaf}, false)
+	refsOnly2 := cell.MustNew(nil, 0, []*cell.Cell{cell.MustNew([]byte{0xCD, 0xEF}, 16, []*cell.Cell{leaf}, false), leaf}, false)
+	return append(p, withPruned, cell.MustNew([]byte{0x33}, 8, []*cell.Cell{pr2}, false), empty, refsOnly, refsOnly2)
 }
 
 func parse(c *enum.Ctx, rc *cell.Cell) *tb.Cell {
